@@ -8,7 +8,7 @@
                    only — the same target under which it is desired, if it is desired.
    (Two targets whose roots coincide can violate them; the harness generates such cases and judges
    them with the oracle and the model comparison.) *)
-From AP Require Import Base.Str Gen.Tables Model.Deploy Proofs.DeployP Proofs.ConvergeP.
+From AP Require Import Base.Str Gen.Tables Model.Deploy Model.Status Proofs.DeployP Proofs.ConvergeP Proofs.StatusCleanP.
 Open Scope N_scope.
 
 (* every desired output holds exactly the rendered bytes; every previously managed output that is
@@ -48,6 +48,15 @@ Theorem C05_managed_after : forall w roots D flt tp,
   In tp (managed_for_plan w' roots flt) -> mem_key tp D = true \/ files w' (snd tp) = None.
 Proof. intros w roots D flt tp HD HM. exact (managed_after w roots D flt HD HM tp). Qed.
 Print Assumptions C05_managed_after.
+
+(* status right afterwards reports nothing missing or modified: every item it lists (over any
+   universe of scanned paths) is an extra *)
+Theorem C05_status_clean : forall st confirmed adopt flt w roots D pl w' universe it,
+  deploy_cmd st confirmed adopt flt w roots D = (pl, (OApplied, w')) ->
+  wfD roots D -> wfM D (managed_for_plan w roots flt) ->
+  In it (report (files w') universe roots D) -> i_kind it = DExtra.
+Proof. exact deploy_status_clean. Qed.
+Print Assumptions C05_status_clean.
 
 (* repeating the deploy changes no file and creates no new snapshot: same world, NoChanges *)
 Theorem C05_idempotent : forall w roots D flt st adopt,
